@@ -298,7 +298,9 @@ Record cfg_ok (c : cfg) : Prop := {
 
 Record consts_facts : Prop := {
   cf_email : 2 <= EMAIL_MAXSIZE <= 1000; cf_pwd : 1 <= PWD_MAXSIZE <= 1000; cf_prefix : 1 <= PREFIX_SIZE <= 1000;
-  cf_name : len DEVICE_NAME <= 1000; cf_guid : GUID_SIZE = 16 }.
+  cf_name : len DEVICE_NAME <= 1000; cf_guid : GUID_SIZE = 16;
+  (* pins of literals of the model: MQTT_KEEP_ALIVE_SEC, MQTT_CLIENTID_MAX_SIZE (22 characters + terminator) *)
+  cf_keep : KEEP_ALIVE_SEC = KEEP_ALIVE; cf_cid : CLIENTID_MAX = 23 }.
 Lemma consts_ok : consts_facts. Proof. constructor; vm_compute; intuition congruence. Qed.
 
 Lemma len_cstr l : len (cstr l) <= len l.
